@@ -218,6 +218,28 @@ func c12a(c *Ctx) {
 			if noFallback {
 				nErr++
 				c.Check(hasLit(must, "+$0.enableEnvironmentErrors"), fmt.Sprintf("%s/no-case-error#%d", short, nErr), c.W.Pos(r.Pos()), "missing case is an error only in normal mode", "the 'no poryswitch case found' error is raised even in lint mode")
+				// ... and always in normal mode: from where the '_' entry is looked up, the error
+				// depends on nothing but "not there" and the mode (not on how many cases there are)
+				var base map[string]bool
+				instrs(fn, func(in ssa.Instruction) {
+					if lk, ok := in.(*ssa.Lookup); ok && lk.CommaOk {
+						if k, isC := strConst(lk.Index); isC && k == "_" && instrDominates(lk, r) {
+							base = map[string]bool{}
+							for _, l := range c.mustLits(fn, lk.Block()) {
+								base[l] = true
+							}
+						}
+					}
+				})
+				if base != nil {
+					var extra []string
+					for _, l := range must {
+						if !base[l] && l != "+$0.enableEnvironmentErrors" && !(strings.HasPrefix(l, "-") && strings.HasSuffix(l, `["_"]#1`)) {
+							extra = append(extra, l)
+						}
+					}
+					c.Check(len(extra) == 0, fmt.Sprintf("%s/no-case-error#%d/no-further-condition", short, nErr), c.W.Pos(r.Pos()), "no further condition on the missing-case error", "the 'no poryswitch case found' error also depends on "+fmt.Sprint(prettyAll(extra))+": some programs without a matching case would compile in normal mode")
+				}
 			}
 		}
 		c.Check(nErr >= 1, short+"/no-case-error", c.W.FuncPos(fn), "no matching case and no '_' fails compilation", "no error return when neither the value nor '_' has a case")
@@ -409,6 +431,17 @@ func c12d(c *Ctx) {
 				}
 			}
 		})
+	}
+	// Set records exactly one entry per option: the key as written (switch names are case
+	// sensitive: GAME and game are different switches)
+	{
+		nUpd := 0
+		instrs(fn, func(in ssa.Instruction) {
+			if _, isMU := in.(*ssa.MapUpdate); isMU {
+				nUpd++
+			}
+		})
+		c.Check(nUpd == 1, "mapOption.Set/one-entry", c.W.FuncPos(fn), "Set stores one entry per -s option", fmt.Sprintf("mapOption.Set updates the map %d times: besides NAME=VALUE as written it stores something else (another spelling of the name?), so one -s option can override another switch", nUpd))
 	}
 	// the switch values that reach the parser are the ones given on the command line: nothing in
 	// package main rewrites the map after (or besides) Set
@@ -1116,6 +1149,22 @@ func instrDominatesAll(a ssa.Instruction, ws []writeSite) bool {
 }
 
 func c14d(c *Ctx) {
+	// the list that is emitted is the list that was parsed: every item token yields its item
+	// (Items and TokenItems stay parallel; a repeated or "empty" item is still an item)
+	if fn := c.Fn("parser.Parser.parseMartStatement"); fn != nil {
+		n := 0
+		for _, st := range storesToField(fn, "ast", "MartStatement", "Items") {
+			if loopHeaders(fn)[st.Block()] == nil {
+				continue
+			}
+			n++
+			w, skip := loopSkip(fn, st)
+			c.Check(!skip, "parseMartStatement/every-item-kept", c.W.Pos(st.Pos()), "every item token yields an item", "an item token can be passed over without an item being added (an iteration can reach "+c.nearPos(w)+" without the append): the mart would lack items that were written, and Items / TokenItems would no longer be parallel")
+		}
+		// (when the items are built without a loop in this function — e.g. by a helper — the
+		// clause does not apply; C13.a checks the element shape)
+		_ = n
+	}
 	nt := c.Fn("parser.Parser.nextToken")
 	for _, name := range []string{"parser.parseMartValue", "parser.parseMovementValue"} {
 		fn := c.Fn(name)
@@ -1465,6 +1514,69 @@ func c13e(c *Ctx) {
 	try := c.Fn("parser.Parser.tryReplaceWithConstant")
 	if try == nil {
 		return
+	}
+	// grouping: a gathered value is wrapped in "( ... )" exactly when the substituted text has more
+	// than one token (contains a space) — decided on the text, not on what the source looked like
+	{
+		nGroup := 0
+		for _, fn := range c.W.FuncsOf("parser") {
+			if isTestFunc(c.W, fn) {
+				continue
+			}
+			instrs(fn, func(in ssa.Instruction) {
+				st, ok := in.(*ssa.Store)
+				if !ok {
+					return
+				}
+				bo, ok := st.Val.(*ssa.BinOp)
+				if !ok || bo.Op != token.ADD {
+					return
+				}
+				// ("( " + X) + " )"
+				inner, ok := bo.X.(*ssa.BinOp)
+				closeP, isC := strConst(bo.Y)
+				if !ok || !isC || closeP != " )" || inner.Op != token.ADD {
+					return
+				}
+				if openP, isC := strConst(inner.X); !isC || openP != "( " {
+					return
+				}
+				x := inner.Y
+				nGroup++
+				xt := c.term(fn, x)
+				key := fmt.Sprintf("%s/grouping#%d", c.W.FuncKey(fn), nGroup)
+				var defBlock *ssa.BasicBlock
+				if xi, ok := x.(ssa.Instruction); ok {
+					defBlock = xi.Block()
+				}
+				if ld, ok := x.(*ssa.UnOp); ok {
+					// the value re-read from the field it was just stored in
+					for _, st2 := range storesToField(fn, "ast", "OperatorExpression", "ComparisonValue") {
+						if st2 != st && instrDominates(st2, ld) {
+							defBlock = st2.Block()
+							xt = c.term(fn, st2.Val)
+						}
+					}
+				}
+				if defBlock == nil {
+					c.Bad(key, c.W.Pos(st.Pos()), "cannot find where the grouped value "+pretty(xt)+" is computed")
+					return
+				}
+				base := map[string]bool{}
+				for _, l := range c.mustLits(fn, defBlock) {
+					base[l] = true
+				}
+				var extra []string
+				for _, l := range c.mustLits(fn, st.Block()) {
+					if !base[l] {
+						extra = append(extra, l)
+					}
+				}
+				okG := len(extra) == 1 && strings.HasPrefix(extra[0], "+strings.Contains(") && strings.HasSuffix(extra[0], `," ")`)
+				c.Check(okG, key, c.W.Pos(st.Pos()), "grouped exactly when the substituted text contains a space", "the value "+pretty(xt)+" is wrapped in parentheses under "+fmt.Sprint(prettyAll(extra))+", expected exactly when the substituted text contains a space: a constant standing for several tokens must be grouped like the same tokens written out")
+			})
+		}
+		c.Check(nGroup >= 1, "grouping/sites", "-", fmt.Sprintf("%d grouping sites", nGroup), "no site that groups a gathered value in parentheses was found")
 	}
 	nAcc, nTests := 0, 0
 	for _, fn := range c.W.FuncsOf("parser") {
